@@ -618,7 +618,6 @@ def law_records(rng, count, quick, stats):
             kappa = np.inf
         rec['condok'] = bool(kappa <= 1e5)
         cfac = max(1.0, kappa ** 2 * 1.1e-8) if rec['condok'] else 1.0
-        amp0, amp = amp, amp * cfac
 
         def fit1(yy, ww):
             s1 = sset_on(k, bk, x)
@@ -634,7 +633,7 @@ def law_records(rng, count, quick, stats):
                 elif o['st'] == 0:
                     ref, rank, A = dense_wls(knots, k, x, y, w)
                     if rank == ref.size:
-                        scale = max(np.abs(ref).max() * cfac, amp * 1e-3)
+                        scale = max(np.abs(ref).max() * cfac, amp * cfac * 1e-3)
                         rec['disc'] = max(units(np.abs(cf - ref).max(), scale), units(np.abs(o['yfit'] - A.dot(ref)).max(), scale))
             elif law == 'zw':
                 zi = [int(q) for q in np.nonzero(w == 0)[0]]
@@ -649,7 +648,7 @@ def law_records(rng, count, quick, stats):
                 rec['exc'] = o1['exc'] or o2['exc'] or ''
                 rec['altered'], rec['zeroidx'] = [q + 1 for q in alt], [q + 1 for q in zi]
                 if not rec['exc'] and rec['st'] == [0, 0]:
-                    rec['disc'] = units(np.abs(c1 - c2).max(), max(np.abs(c1).max() * cfac, amp * 1e-3))
+                    rec['disc'] = units(np.abs(c1 - c2).max(), max(np.abs(c1).max() * cfac, amp * cfac * 1e-3))
             elif law == 'lin':
                 ya = amp * np.array([rng.gauss(0, 1) for _ in x])
                 al, be = rng.uniform(-3, 3), rng.uniform(-3, 3)
@@ -660,7 +659,7 @@ def law_records(rng, count, quick, stats):
                 rec['finite'] = o1['finite'] and o2['finite'] and o3['finite']
                 rec['exc'] = o1['exc'] or o2['exc'] or o3['exc'] or ''
                 if not rec['exc'] and rec['st'] == [0, 0, 0]:
-                    scale = max(np.abs(c1).max() * cfac, np.abs(c2).max() * cfac, amp * 1e-3) * (abs(al) + abs(be) + 1)
+                    scale = max(np.abs(c1).max() * cfac, np.abs(c2).max() * cfac, amp * cfac * 1e-3) * (abs(al) + abs(be) + 1)
                     rec['disc'] = units(np.abs(c3 - (al * c1 + be * c2)).max(), scale)
             else:
                 pcs = [amp * rng.uniform(-1, 1) for _ in range(k)]
@@ -675,7 +674,7 @@ def law_records(rng, count, quick, stats):
                     pu = (px - bk[0]) / (bk[-1] - bk[0])
                     val, vm = s1.value(px)
                     d = max(np.abs(o['yfit'] - yp).max(), np.abs(val - sum(cv * pu ** e for e, cv in enumerate(pcs))).max())
-                    rec['disc'] = units(d, max(np.abs(yp).max() * cfac, amp * 1e-3)) if np.all(vm) else CAP
+                    rec['disc'] = units(d, max(np.abs(yp).max() * cfac, amp * cfac * 1e-3)) if np.all(vm) else CAP
         except Exception as ex:
             rec['exc'] = 'harness-side: ' + short_exc(ex)
         rec['st'] = [v if isinstance(v, int) else 99 for v in rec['st']]
